@@ -34,7 +34,7 @@ namespace NeoModel.Exec
 
 /-! ## State: write logs -/
 
-/-- storage key: (owner, key). Owners 0..8 are deployed contracts, 9 is the entry script,
+/-- storage key: (owner, key). Owners 0..3 are deployed contracts, 6..8 plain accounts, 9 is the entry script,
     100/101 the GAS/NEO balance tables (key = account), 102 Policy settings. -/
 abbrev Key := Nat × Nat
 
